@@ -380,6 +380,28 @@ impl World {
     };
     match sel {
       InputSel::Utxo(k) => fallback(*k),
+      InputSel::Duplicated(k) => from(
+        avail
+          .iter()
+          .filter(|(o, u)| {
+            u.coinbase
+              && self.tx_blocks.get(&o.txid).is_some_and(|blocks| {
+                blocks
+                  .iter()
+                  .filter(|h| {
+                    self
+                      .blocks
+                      .get(*h)
+                      .is_some_and(|info| self.best.get(info.height as usize) == Some(*h))
+                  })
+                  .count()
+                  > 1
+              })
+          })
+          .map(|(o, _)| *o)
+          .collect(),
+        *k,
+      ),
       InputSel::SameBlock(k) => from(
         avail
           .iter()
@@ -916,7 +938,13 @@ impl World {
     if let Some(k) = spec.duplicate_of
       && height > 1
     {
-      let h = 1 + k % (height - 1);
+      // odd selectors copy a recent coinbase (its outputs are more likely to
+      // be unspent still), even ones any earlier coinbase
+      let h = if k % 2 == 1 {
+        height - 1 - (k / 2) % (height - 1).min(6)
+      } else {
+        1 + k % (height - 1)
+      };
       let old = &self.block_at(h).unwrap().block.txdata[0];
       let claim: u64 = old.output.iter().map(|o| o.value.to_sat()).sum();
       if claim <= reward {
